@@ -96,8 +96,21 @@ pub fn profile(family: &str) -> Profile {
             entries: &[Entry::Builder],
             timers_pm: 500,
             script_ctx_pm: 200,
-            fail_start_pm: 40,
+            fail_start_pm: 120,
             w: [25, 20, 4, 1, 2, 18, 1, 2, 2, 2, 1, 2, 10, 4, 0],
+            ..b
+        },
+        "timers" => Profile {
+            name: "timers",
+            max_clients: 2,
+            ops_per_client: (4, 9),
+            strategies: &[Strategy::RestartOnly, Strategy::RecreateFromDefault],
+            entries: &[Entry::Builder],
+            timers_pm: 1000,
+            handler_sleep_pm: 100,
+            panic_pm: 60,
+            crash_pm: 100,
+            w: [40, 6, 2, 0, 3, 8, 1, 1, 1, 1, 0, 2, 30, 2, 0],
             ..b
         },
         "timeouts" => Profile {
@@ -145,8 +158,9 @@ pub fn profile(family: &str) -> Profile {
             owning_pm: 1000,
             join_ops_pm: 1000,
             panic_pm: 60,
-            fail_start_pm: 60,
-            w: [25, 15, 5, 1, 5, 2, 2, 3, 3, 6, 2, 6, 8, 4, 2],
+            fail_start_pm: 120,
+            strategies: &[Strategy::RestartOnly, Strategy::RecreateFromDefault],
+            w: [25, 15, 5, 1, 5, 8, 2, 3, 3, 6, 2, 6, 8, 4, 2],
             ..b
         },
         "stop-race" => Profile {
@@ -235,7 +249,11 @@ pub fn spec(r: &mut Rng, p: &Profile) -> Spec {
         s.started.push(timer(r));
     }
     if r.chance(p.fail_start_pm) {
-        s.started.push(if r.chance(600) { Act::Fail } else { Act::Panic });
+        s.started.push(match r.below(10) {
+            0..=3 => Act::Fail,
+            4..=6 => Act::FailOnRestart,
+            _ => Act::Panic,
+        });
     }
     if r.chance(300) {
         s.stopped = script(r, p, true);
